@@ -81,7 +81,7 @@ def main():
         "hooks": {
             "guard": "verif",
             "enable": "go build -tags verif (every check builds /repo's working tree through a replace directive in /verif/go.mod)",
-            "baseline_off_cmd": "cd /repo && GOFLAGS=-mod=mod GOPROXY=off GOSUMDB=off go test -vet=off -count=1 -timeout 25m ./...",
+            "baseline_off_cmd": "cd /repo && GOPROXY=off GOSUMDB=off go test -mod=mod -json -vet=off -count=1 -timeout 25m ./...",
             "source_commits": [],
             "add_only": True,
         },
